@@ -228,6 +228,44 @@ Theorem uniform_real_range_thm : forall (rn : R -> R) (F : R -> Prop),
 Proof. exact uniform_real_range. Qed.
 Print Assumptions uniform_real_range_thm.
 
+(* the denormal regime is NOT excluded by the hypotheses above (FLT rounding is monotone and the identity on
+   the format there too; only overflow is outside the R model): for every representable width 2^e, denormal
+   widths included, a range [0, 2^e] is respected exactly by both distributions *)
+Theorem pcg_float_tiny_range_thm : forall e k, (-149 <= e)%Z -> (0 <= k < 2 ^ 32)%Z ->
+  0 <= pcg_float rnd 0 (bpow radix2 e) k <= bpow radix2 e.
+Proof. exact pcg_float_tiny_range. Qed.
+Print Assumptions pcg_float_tiny_range_thm.
+
+Theorem uniform_real_tiny_range_thm : forall e k, (-149 <= e)%Z -> (0 <= k <= 4294967295)%Z ->
+  0 <= uniform_real rnd 0 (bpow radix2 e) k <= bpow radix2 e.
+Proof. exact uniform_real_tiny_range. Qed.
+Print Assumptions uniform_real_tiny_range_thm.
+
+(* uniform_real_distribution before repair fix-1 (scale = (u-l)/range first): only the weak bound "the formula
+   itself at the largest sample" holds ... *)
+Theorem uniform_real_old_weak_range : forall (rn : R -> R) (F : R -> Prop),
+  (forall x y, x <= y -> rn x <= rn y) -> (forall x, F (rn x)) -> (forall x, F x -> rn x = x) -> F 0 -> F 1 ->
+  forall l u k, F l -> l <= u -> (0 <= k <= 4294967295)%Z ->
+  l <= uniform_real_old rn l u k <= uniform_real_old_hi rn l u.
+Proof. exact uniform_real_old_range. Qed.
+Print Assumptions uniform_real_old_weak_range.
+
+(* ... and on the binary32 twin it returns 2^-116 for the range [0, 1.5 * 2^-117] (a third beyond u), where the
+   repaired order returns u *)
+Example uniform_real_old_refuted :
+  let l := of_bits 0 in let u := of_bits 88080384 in let k := 4294967295%Z in
+  bltb u (b_uniform_old_k l u k) = true /\ to_bits (b_uniform_old_k l u k) = 92274688%Z /\
+  bltb u (b_uniform_k l u k) = false /\ to_bits (b_uniform_k l u k) = 88080384%Z.
+Proof. exact b_uniform_old_refuted. Qed.
+
+(* the operation order of seeded change C07-5 (2^-32 folded into diff) violates the range clause on
+   [0, 1e-30] at the largest sample, where the code's order returns exactly upper *)
+Example pcg_float_scaled_diff_refuted :
+  let lo := of_bits 0 in let hi := of_bits 228737632 in let k := 4294967295%Z in
+  bltb hi (b_pcg_float_k lo hi k) = false /\ to_bits (b_pcg_float_k lo hi k) = 228737632%Z /\
+  bltb hi (b_pcg_float_scaled_k lo hi k) = true.
+Proof. exact b_pcg_float_scaled_diff_refuted. Qed.
+
 (* binary32 instance, fed by the pcg32 model: the n-th value of
    pcg32_biased_float_distribution(seed, sequence, lower, upper) is in range *)
 Theorem pcg_float_range_binary32 : forall seed seq n lower upper,
